@@ -802,6 +802,22 @@ impl W3Exec {
         if has(&cfg, w3mon::RECORDS) {
             self.check_records(&pre, &post, start, n)?;
         }
+        // ---- C08: "the step's traded volume counts only that step's trades" - also as the environment reports it per
+        // step and per asset (one entry per step, equal to the volume of the trades this step appended) ----
+        if cfg.property == "C08" && !has(&cfg, w3mon::RECORDS) {
+            let k = self.steps;
+            for a in 0..cfg.assets {
+                let h = &post[a].hist;
+                let from = pre[a].book.trades.len().min(post[a].book.trades.len());
+                let by_index: u64 = post[a].book.trades[from..].iter().map(|t| t.vol as u64).sum();
+                if h.trade_vols.len() != k {
+                    return Err(self.viol("step-volume", &format!("asset{}.trade_vols.len", a), k.to_string(), h.trade_vols.len().to_string()).detail("the environment reports one traded volume per step and asset".into()));
+                }
+                if h.trade_vols[k - 1] as u64 != by_index {
+                    return Err(self.viol("step-volume", &format!("asset{}.trade_vols[{}]", a, k - 1), by_index.to_string(), h.trade_vols[k - 1].to_string()).detail("the step's traded volume as the environment reports it differs from the volume of the trades this step appended".into()));
+                }
+            }
+        }
 
         // ---- schedule inference / belief set (C08, C05 overflow, C13, C14) ----
         if has(&cfg, w3mon::BELIEF) {
